@@ -592,7 +592,7 @@ vbi_deferred_trigger(vbi_decoder *vbi)
 {
 	vbi_trigger *t, **tp;
 
-	for (tp = &vbi->triggers; (t = *tp); tp = &t->next)
+	for (tp = &vbi->triggers; (t = *tp); )
 		if (t->fire <= vbi->time) {
 			vbi_event ev;
 
@@ -614,7 +614,7 @@ add_trigger(vbi_decoder *vbi, vbi_trigger *a)
 	if (a->_delete) {
 		vbi_trigger **tp;
 
-		for (tp = &vbi->triggers; (t = *tp); tp = &t->next)
+		for (tp = &vbi->triggers; (t = *tp); )
 			if (strcmp((char *) a->link.url, (char *) t->link.url) == 0
 			    && fabs(a->fire - t->fire) < 0.1) {
 				*tp = t->next;
